@@ -110,7 +110,11 @@ def run(workdir_path, module, cfg_text, workers=None, timeout=1800, simulate=Non
     meta = os.path.join(workdir_path, "meta_" + module + "_" + str(int(time.time() * 1000) % 10**9))
     # MemStateQueue: plain in-memory FIFO (breadth-first order kept).  TLC 1.8's default DiskStateQueue fails
     # on some of these specs with "Error: when writing the disk (StatePoolWriter.run) ... fcnRcd is null"
-    cmd = ["java", "-XX:+UseParallelGC", "-Xss16m", "-Dtlc2.tool.queue.IStateQueue=MemStateQueue"] + (java_opts or []) + ["-cp", JAR, "tlc2.TLC",
+    jo = list(java_opts or [])
+    if not any(o.startswith("-Xmx") for o in jo) and "-Xmx" not in os.environ.get("JAVA_TOOL_OPTIONS", ""):
+        # the JVM default (a quarter of RAM per process) lets 16 parallel shards exhaust the machine
+        jo.append("-Xmx3g" if (workers or NCPU) == 1 else "-Xmx12g")
+    cmd = ["java", "-XX:+UseParallelGC", "-Xss16m", "-Dtlc2.tool.queue.IStateQueue=MemStateQueue"] + jo + ["-cp", JAR, "tlc2.TLC",
            "-metadir", meta, "-noGenerateSpecTE", "-config", module + ".cfg",
            "-workers", str(workers or NCPU)]
     if coverage:
